@@ -28,6 +28,8 @@ from concurrent.futures import ThreadPoolExecutor
 REPO = '/repo'
 FILES = ['connection.py', 'stream.py', 'utilities.py', 'settings.py',
          'windows.py', 'frame_buffer.py', 'config.py']
+if os.environ.get('MUT_FILES'):
+    FILES = os.environ['MUT_FILES'].split(',')
 SWAP = {'<': '<=', '<=': '<', '>': '>=', '>=': '>', '==': '!=', '!=': '==',
         'and': 'or', 'or': 'and', '+': '-', '-': '+', 'True': 'False',
         'False': 'True', '+=': '-=', '-=': '+='}
